@@ -8,6 +8,8 @@ import (
 	"io"
 	"strings"
 
+	"github.com/titpetric/vuego"
+
 	"verif/engine/core"
 )
 
@@ -62,7 +64,10 @@ func stripFM(src string) string {
 
 // c12Call performs one render of the program through the entry point into w.
 func c12Call(ctx context.Context, p *Program, entry string, w io.Writer) error {
-	t := catEngine()
+	return c12CallOn(ctx, catEngine(), p, entry, w)
+}
+
+func c12CallOn(ctx context.Context, t vuego.Template, p *Program, entry string, w io.Writer) error {
 	data := p.Data("CANARY")
 	src := stripFM(CatalogFiles[p.Page])
 	switch entry {
@@ -129,11 +134,22 @@ func (c *c12Case) Run(ctx *core.Ctx) {
 		return
 	}
 	n := ref.Len()
+	shared := catEngine() // one long-lived engine sees every faulty call and the healthy call after it
 	for k := 0; k < n; k++ {
 		for _, short := range []bool{false, true} {
 			fw := &failWriter{limit: k, short: short}
-			ctx.Eval(1)
-			e := c12Call(bg, p, c.Entry, fw)
+			ctx.Eval(2)
+			e := c12CallOn(bg, shared, p, c.Entry, fw)
+			// history: a healthy call right after the failed one gets exactly the reference bytes
+			after := &failWriter{limit: 1 << 30}
+			if e2 := c12CallOn(bg, shared, p, c.Entry, after); e2 != nil || after.got.String() != ref.String() {
+				ctx.Violation("output-after-failed-write", where, c.Prog, fmt.Sprintf("program %s: after a writer failure at offset %d of %d the next healthy render on the same engine returned err=%v and %q, want %q", c.Prog, k, n, e2, clip(after.got.String(), 300), clip(ref.String(), 300)))
+				return
+			}
+			if !bytes.HasPrefix(ref.Bytes(), fw.got.Bytes()) {
+				ctx.Violation("foreign-bytes-before-failure", where, c.Prog, fmt.Sprintf("offset %d: the failing writer received %q, not a prefix of %q", k, clip(fw.got.String(), 200), clip(ref.String(), 200)))
+				return
+			}
 			if !fw.failed {
 				ctx.Violation("fault-not-reached", where, c.Prog, fmt.Sprintf("offset %d/%d: the writer never had to fail", k, n))
 				continue
@@ -163,7 +179,7 @@ func init() {
 		ID:    "C12",
 		Level: "fault_enumeration",
 		Rule: "every catalogue program (25 succeeding, 6 failing early/late/in include/in layout) x entry point {Load+Render, RenderFile, RenderString, RenderByte, RenderReader} x fault {none, cancelled context, writer failing at EVERY byte offset 0..len(output)-1 in two styles: refusing the write, short write + error}. " +
-			"oracle: healthy writer: error => 0 bytes received, nil => exactly the reference bytes; failing writer: non-nil error; cancelled context: error and 0 bytes. non-trivial = all; distinct = (program, entry point)",
+			"oracle: healthy writer: error => 0 bytes received, nil => exactly the reference bytes; failing writer: non-nil error, the bytes it accepted are a prefix of the reference, and the next healthy render on the same long-lived engine returns exactly the reference bytes; cancelled context: error and 0 bytes. non-trivial = all; distinct = (program, entry point)",
 		Bounds:      map[string]string{"quick": "all offsets of all programs", "thorough": "same"},
 		Assumptions: []string{"writers that return n < len(p) with a nil error are out of scope"},
 		Decode:      core.DecodeAs[c12Case](),
